@@ -178,6 +178,7 @@ def registry_conservation(prog, run, r):
 
 
 def check(prog, run):
+    check_single_root_declaration(prog, run, "O2")
     _PROG[0] = prog
     b = prog.get_class(BUILDER, "ASTTypeBuilder")
 
@@ -648,3 +649,67 @@ def eager_reference_kinds(prog, cls, m, entry, seen, depth=0):
                 if callee is not None and callee is not m:
                     out |= eager_reference_kinds(prog, cls, callee, entry, seen, depth + 1)
     return out
+
+
+def check_single_root_declaration(prog, run, rule_id):
+    """A root operation is declared at most once, by the schema definition and all its extensions together."""
+    import re as _re
+    from .. import boolx as _bx
+    MOD = "py_gql.sdl.schema_from_ast"
+    r = run.rule(rule_id, "sdl/schema_from_ast.py, every loop over the `operation_types` of a schema definition / extension that records "
+                          "`M[operation] = <type>`: on the executions where M already holds that operation the iteration raises and "
+                          "stores nothing, on the others it stores - the occupancy test is made against the very map being filled, so "
+                          "`schema { query: A query: B }`, two extensions naming the same root, or an extension re-declaring an "
+                          "existing root are refused instead of the last declaration silently winning", 4)
+    mod = prog.module(MOD)
+    n_loops = 0
+    for f in [x for x in prog.all_funcs() if x.module is mod]:
+        for loop in own_nodes(f.node):
+            if not (isinstance(loop, ast.For) and isinstance(loop.iter, ast.Attribute) and loop.iter.attr == "operation_types"):
+                continue
+            stores = [s for st in loop.body for s in ast.walk(st) if isinstance(s, ast.Assign) and isinstance(s.targets[0], ast.Subscript)
+                      and isinstance(s.targets[0].value, ast.Name)]
+            if not stores:
+                continue
+            run.looked_at(f)
+            n_loops += 1
+            M = stores[0].targets[0].value.id
+            kexpr = stores[0].targets[0].slice
+            keys = {ast.unparse(kexpr)}
+            if isinstance(kexpr, ast.Name):
+                for st in loop.body:
+                    for s in ast.walk(st):
+                        if isinstance(s, ast.Assign) and len(s.targets) == 1 and isinstance(s.targets[0], ast.Name) and s.targets[0].id == kexpr.id:
+                            keys.add(ast.unparse(s.value))
+            K = "(?:%s)" % "|".join(_re.escape(k) for k in sorted(keys))
+            pats = [(_re.compile(r"^%s in %s$" % (K, M)), True), (_re.compile(r"^%s not in %s$" % (K, M)), False),
+                    (_re.compile(r"^%s\.get\(%s(, None)?\) is not None$" % (M, K)), True), (_re.compile(r"^%s\.get\(%s(, None)?\) is None$" % (M, K)), False),
+                    (_re.compile(r"^%s\.get\(%s(, None)?\)$" % (M, K)), True),
+                    (_re.compile(r"^%s\[%s\] is not None$" % (M, K)), True), (_re.compile(r"^%s\[%s\] is None$" % (M, K)), False),
+                    (_re.compile(r"^%s\[%s\]$" % (M, K)), True)]
+            body = _bx.body_function(loop.body)
+            for occupied in (True, False):
+                def decide(t, occupied=occupied):
+                    for p, pos in pats:
+                        if p.match(t):
+                            return occupied if pos else not occupied
+                    return None
+                try:
+                    _ev, exits = _bx.walk_under(body, decide)
+                except ValueError as e:
+                    raise AnalysisError("C11.%s: %s" % (rule_id, e))
+                outcomes = set()
+                for kind, st, env in exits:
+                    stored = any(isinstance(s, ast.Assign) and isinstance(s.targets[0], ast.Subscript) and isinstance(s.targets[0].value, ast.Name)
+                                 and s.targets[0].value.id == M for s in env.get(_bx.STMTS, ()))
+                    outcomes.add("raise" if kind == "raise" and not stored else ("store" if stored else "skip"))
+                want = {"raise"} if occupied else {"store"}
+                r.instance("%s: loop over %s into `%s`, operation %s -> %s" % (f.qualname, ast.unparse(loop.iter), M, "already declared" if occupied else "new", sorted(outcomes)))
+                if outcomes != want:
+                    run.report(r, "%s:%s:root-declared-twice(%s)" % (MOD, f.qualname, M), f.where(loop),
+                               "in the loop over `%s`, an operation that `%s` %s leads to %s (expected %s): %s" % (
+                                   ast.unparse(loop.iter), M, "already holds" if occupied else "does not hold yet", sorted(outcomes), sorted(want),
+                                   "a second declaration of the same root replaces the first without an error" if occupied else
+                                   "a legitimate declaration is not recorded"))
+    if n_loops < 2:
+        raise AnalysisError("C11.%s: the loops recording root operation types were not found (%d)" % (rule_id, n_loops))
